@@ -3,6 +3,8 @@ package main
 // A3 — number of separate database critical sections a function can open on one path (0, 1, 2=many).
 
 import (
+	"strings"
+
 	"golang.org/x/tools/go/ssa"
 )
 
@@ -112,4 +114,74 @@ func (sm *SectionModel) count(fn *ssa.Function, lm *LockModel) (int, []ssa.Instr
 	}
 	// deferred calls that open sections (rare) are ignored: a deferred unlock closes, never opens
 	return best, wit
+}
+
+const textA3 = "A3: a keyspace command (one that has key specs or the readonly/write flag in the embedded command info) opens at most one critical section of the database mutex on any path — the whole read-modify-write of the command happens under one hold; blocking commands are judged per attempt (each closure they hand to the wait loop)"
+
+func ruleA3(c *Ctx) {
+	c.S.Rule("A3-sections", textA3, 80)
+	g, err := c.M.Grammar()
+	if err != nil {
+		c.S.Undecided("A3-sections", "grammar", "-", err.Error())
+		return
+	}
+	hs, err := c.M.Handlers()
+	if err != nil {
+		c.S.Undecided("A3-sections", "handlers", "-", err.Error())
+		return
+	}
+	sm := c.M.Sections()
+	toks, _ := c.M.HandlerTokens()
+	done := map[string]bool{}
+	for _, tok := range toks {
+		cmd := g.Cmds[tok]
+		if cmd == nil || !cmd.HasInfo {
+			continue
+		}
+		if !(cmd.KeySpecs > 0 || cmd.hasFlag("readonly") || cmd.hasFlag("write")) {
+			continue
+		}
+		h := hs[tok]
+		if cmd.hasFlag("blocking") {
+			// per attempt: closures created on the way to the wait loop that yield a reply
+			for f := range c.M.Reach(h) {
+				for _, in := range instrsOf(f) {
+					mc, ok := in.(*ssa.MakeClosure)
+					if !ok {
+						continue
+					}
+					cl := mc.Fn.(*ssa.Function)
+					if cl.Signature.Params().Len() != 0 || cl.Signature.Results().Len() != 1 || !c.isPkgType(cl.Signature.Results().At(0).Type(), "respValue") {
+						continue
+					}
+					key := "attempt:" + fnName(cl)
+					if done[key] {
+						continue
+					}
+					done[key] = true
+					c.reportSections(sm, key, cl, "one attempt of blocking command "+tok)
+				}
+			}
+			continue
+		}
+		key := fnName(h)
+		if done[key] {
+			continue
+		}
+		done[key] = true
+		c.reportSections(sm, key, h, "command "+tok)
+	}
+}
+
+func (c *Ctx) reportSections(sm *SectionModel, key string, fn *ssa.Function, what string) {
+	n := sm.sec[fn]
+	if n <= 1 {
+		c.S.OK("A3-sections", key, c.Pos(fn.Pos()), what+": at most one critical section on every path")
+		return
+	}
+	var at []string
+	for _, w := range sm.wit[fn] {
+		at = append(at, c.Pos(c.InstrPos(w)))
+	}
+	c.S.Bad("A3-sections", key, c.Pos(fn.Pos()), what+" takes and releases the database lock more than once on one path (sections opened at "+strings.Join(at, ", ")+"): other clients can observe or interleave with the half-done command")
 }
